@@ -1437,11 +1437,69 @@ static const long primes[100] = {
 
 static size_t primes_count = sizeof(primes)/sizeof(long);
 
+static
+lp_upolynomial_factors_t* upolynomial_factor_Z_square_free(const lp_upolynomial_t* f);
+
+/**
+ * Hensel lifting and recombination below work with monic modular factors and
+ * monic candidates, so they are only correct for monic f. For l = lc(f) > 1 and
+ * n = deg(f) we factor the monic F(y) = l^(n-1)*f(y/l) = G_1(y)*...*G_r(y) and
+ * map back: f(x) = pp(G_1(l*x))*...*pp(G_r(l*x)).
+ */
+static
+lp_upolynomial_factors_t* upolynomial_factor_Z_square_free_nonmonic(const lp_upolynomial_t* f) {
+  size_t n = lp_upolynomial_degree(f), k, i;
+  const lp_integer_t* l = lp_upolynomial_lead_coeff(f);
+  lp_integer_t* c = malloc((n + 1)*sizeof(lp_integer_t));
+  lp_integer_t pw;
+  integer_construct_from_int(lp_Z, &pw, 1);
+  for (k = 0; k <= n; ++ k) {
+    integer_construct_from_int(lp_Z, c + k, 0);
+  }
+  // F_n = 1, F_k = f_k * l^(n-1-k)
+  lp_upolynomial_unpack(f, c);
+  integer_assign_int(lp_Z, c + n, 1);
+  for (k = n - 1; k > 0; -- k) {
+    integer_mul(lp_Z, &pw, &pw, l);
+    integer_mul(lp_Z, c + (k - 1), c + (k - 1), &pw);
+  }
+  lp_upolynomial_t* F = lp_upolynomial_construct(lp_Z, n, c);
+  lp_upolynomial_factors_t* factors = upolynomial_factor_Z_square_free(F);
+  // G(y) -> pp(G(l*x))
+  for (i = 0; i < factors->size; ++ i) {
+    lp_upolynomial_t* G = factors->factors[i];
+    size_t d = lp_upolynomial_degree(G);
+    for (k = 0; k <= n; ++ k) {
+      integer_assign_int(lp_Z, c + k, 0);
+    }
+    lp_upolynomial_unpack(G, c);
+    integer_assign_int(lp_Z, &pw, 1);
+    for (k = 1; k <= d; ++ k) {
+      integer_mul(lp_Z, &pw, &pw, l);
+      integer_mul(lp_Z, c + k, c + k, &pw);
+    }
+    factors->factors[i] = lp_upolynomial_construct(lp_Z, d, c);
+    lp_upolynomial_make_primitive_Z(factors->factors[i]);
+    lp_upolynomial_delete(G);
+  }
+  lp_upolynomial_delete(F);
+  for (k = 0; k <= n; ++ k) {
+    integer_destruct(c + k);
+  }
+  free(c);
+  integer_destruct(&pw);
+  return factors;
+}
+
 /**
  * Factors a square-free f in Z.
  */
 static
 lp_upolynomial_factors_t* upolynomial_factor_Z_square_free(const lp_upolynomial_t* f) {
+
+  if (!lp_upolynomial_is_monic(f)) {
+    return upolynomial_factor_Z_square_free_nonmonic(f);
+  }
 
   if (trace_is_enabled("factorization")) {
     tracef("upolynomial_factor_Z_square_free("); lp_upolynomial_print(f, trace_out); tracef(")\n");
